@@ -942,3 +942,164 @@ def plt_seeded(use_observed):
 
 _REG.add(plt_seeded(True))
 _REG.add(plt_seeded(False))
+
+
+# ------------------------------------------------------------------ C08: public paired tests (plumbing over the array-level kernels)
+TTEST = 'csep.core.poisson_evaluations._t_test_ndarray'
+WTEST = 'csep.core.poisson_evaluations._w_test_ndarray'
+
+
+def _ttest_result(c, target_event_rates1, target_event_rates2, n_obs, n_f1, n_f2, alpha=0.05):
+    return {k: c.ctx.fresh_real(k) for k in ('t_statistic', 't_critical', 'information_gain', 'ig_lower', 'ig_upper')}
+
+
+TTestNdarray.result = _ttest_result
+TTestNdarray.accepts = lambda c, target_event_rates1, target_event_rates2, *r, **k: (
+    isinstance(target_event_rates1, Arr) and isinstance(target_event_rates2, Arr) and target_event_rates1.ndim == 1 and target_event_rates2.ndim == 1)
+
+
+@contract
+class WTestNdarrayAbstract:
+    """_w_test_ndarray is used modularly by the public W-test: its own behaviour (ranks, tie correction, normal approximation)
+    is outside the engine (scipy.stats.rankdata, numpy.unique with counts) and decided by the bounded layer only; here the result is
+    two unconstrained reals (ASSUMED contract: returns a dict with 'z_statistic' and 'probability')"""
+    qualname = WTEST
+    case = 'assumed result shape (modular use only)'
+    properties = ('C08',)
+    assumed = True
+
+    def params(c):
+        return None
+
+    def accepts(c, x, m=0):
+        return isinstance(x, Arr) and x.ndim == 1
+
+    def result(c, x, m=0):
+        return {'z_statistic': c.ctx.fresh_real('z'), 'probability': c.ctx.fresh_real('p')}
+
+    def requires(c, x, m=0):
+        return []
+
+    def ensures(c, r, x, m=0):
+        return []
+
+
+def _paired_objects(c):
+    """two abstract forecasts whose target_event_rates() records how it was asked, and an abstract catalog"""
+    from pyvc.core import Lam
+    n = c.int('n_events')
+    c.ctx.assume(n >= 2)
+    mags = c.arr('magnitudes', 'float64')
+    c.ctx.assume(mags.n >= 1)
+    cat = c.obj(None, event_count=n, name='cat')
+    log = []
+    out = {}
+    for tag in ('A', 'B'):
+        rates = c.arr('rates' + tag, 'float64', n=n)
+        tot = c.real('total' + tag)
+        ev = c.real('event_count' + tag)
+
+        def ter(target_catalog, scale=False, tag=tag, rates=rates, tot=tot):
+            log.append((tag, target_catalog, scale))
+            return (rates, tot)
+        out[tag] = (c.obj(None, target_event_rates=Lam(ter), name='fc' + tag, magnitudes=mags, event_count=ev), rates, tot, ev)
+    return out, cat, log, n
+
+
+def _directed_pairs(oracle_name, scale, **kw):
+    """concrete forecasts / catalogs (conventions of rt/oracles_eval.py) that exercise the public paired tests"""
+    g = {'nx': 2, 'ny': 2, 'dh': 1.0, 'x0': 0.0, 'y0': 0.0, 'mags': [4.0, 5.0]}
+    ra = [[0.5, 0.25], [1.5, 0.125], [2.0, 0.75], [0.375, 3.0]]
+    rb = [[1.0, 0.5], [0.25, 0.25], [0.5, 1.5], [2.0, 0.0625]]
+    ev = [[0, 0], [1, 1], [2, 0], [3, 1], [2, 1], [0, 0]]
+    out = []
+    for days in (365, 30):
+        for a, b in ((ra, rb), (rb, ra), (ra, ra)):
+            out.append((oracle_name, dict(grid=g, rates_a=a, rates_b=b, events=ev, scale=scale, days=days, **kw)))
+    return out
+
+
+def paired_t_case(scale):
+    class PT:
+        directed = staticmethod(lambda: _directed_pairs('paired_t_test_public', scale, alpha=0.05))
+        qualname = 'csep.core.poisson_evaluations.paired_t_test'
+        case = 'abstract forecasts / catalog, scale=%s' % scale
+        properties = ('C08',)
+
+        def params(c):
+            o, cat, log, n = _paired_objects(c)
+            return dict(forecast=o['A'][0], benchmark_forecast=o['B'][0], observed_catalog=cat, alpha=c.real('alpha'), scale=scale,
+                        _o=o, _log=log, _n=n)
+
+        def requires(c, forecast, benchmark_forecast, observed_catalog, alpha, scale, _o, _log, _n):
+            return [alpha > 0, alpha < 1]
+
+        def ensures(c, r, forecast, benchmark_forecast, observed_catalog, alpha, scale, _o, _log, _n):
+            from pyvc.core import Obj
+            yield 'returns an evaluation result', z3.BoolVal(isinstance(r, Obj))
+            yield 'each forecast is asked once for its target-event rates, for the observed catalog and with the SAME scale flag', \
+                z3.BoolVal(sorted(t[0] for t in _log) == ['A', 'B'] and all(t[1] is observed_catalog and t[2] is scale for t in _log))
+            calls = c.calls(TTEST)
+            yield 'one call of the array-level T-test', z3.BoolVal(len(calls) == 1)
+            if calls:
+                loc, out = calls[0][1], calls[0][2]
+                yield 'forecast first, benchmark second (sign of the information gain)', z3.BoolVal(
+                    loc['target_event_rates1'] is _o['A'][1] and loc['target_event_rates2'] is _o['B'][1]
+                    and loc['n_f1'] is _o['A'][2] and loc['n_f2'] is _o['B'][2])
+                yield 'N is the number of observed events', to_z3(loc['n_obs']) == _n
+                yield 'significance level passed through', to_real(loc['alpha']) == alpha
+                yield 'observed statistic is the information gain', z3.BoolVal(r.fields.get('observed_statistic') is out['information_gain'])
+                td, q = r.fields.get('test_distribution'), r.fields.get('quantile')
+                yield 'test distribution is the confidence interval (lower, upper)', z3.BoolVal(
+                    isinstance(td, tuple) and len(td) == 2 and td[0] is out['ig_lower'] and td[1] is out['ig_upper'])
+                yield 'quantile is (t statistic, t critical)', z3.BoolVal(
+                    isinstance(q, tuple) and len(q) == 2 and q[0] is out['t_statistic'] and q[1] is out['t_critical'])
+            yield 'name / status / names', z3.BoolVal(r.fields.get('name') == 'Paired T-Test' and r.fields.get('status') == 'normal'
+                                                      and r.fields.get('sim_name') == ('fcA', 'fcB') and r.fields.get('obs_name') == 'cat')
+    PT.__name__ = 'PairedT_%s' % scale
+    return PT
+
+
+def w_case(scale):
+    class WT:
+        directed = staticmethod(lambda: _directed_pairs('w_test_public', scale))
+        qualname = 'csep.core.poisson_evaluations.w_test'
+        case = 'abstract forecasts / catalog, scale=%s' % scale
+        properties = ('C08',)
+
+        def params(c):
+            o, cat, log, n = _paired_objects(c)
+            return dict(gridded_forecast1=o['A'][0], gridded_forecast2=o['B'][0], observed_catalog=cat, scale=scale, _o=o, _log=log, _n=n)
+
+        def requires(c, gridded_forecast1, gridded_forecast2, observed_catalog, scale, _o, _log, _n):
+            return []
+
+        def ensures(c, r, gridded_forecast1, gridded_forecast2, observed_catalog, scale, _o, _log, _n):
+            from pyvc.core import Obj
+            yield 'returns an evaluation result', z3.BoolVal(isinstance(r, Obj))
+            yield 'each forecast is asked once for its target-event rates, for the observed catalog and with the SAME scale flag', \
+                z3.BoolVal(sorted(t[0] for t in _log) == ['A', 'B'] and all(t[1] is observed_catalog and t[2] is scale for t in _log))
+            calls = c.calls(WTEST)
+            yield 'one call of the array-level W-test', z3.BoolVal(len(calls) == 1)
+            if calls:
+                loc, out = calls[0][1], calls[0][2]
+                x, m = loc['x'], loc['m']
+                e = c.ctx.fresh_int('e!sk')
+                ra, rb = _o['A'][1], _o['B'][1]
+                yield 'sample has one entry per observed event', z3.BoolVal(isinstance(x, Arr) and x.ndim == 1) 
+                if isinstance(x, Arr):
+                    yield 'sample length', to_z3(x.shape[0]) == _n
+                    yield 'sample entry e is ln rate_A(e) - ln rate_B(e)', z3.Implies(
+                        z3.And(0 <= e, e < _n), to_real(x.f((e,))) == LOG(to_real(ra.f((e,)))) - LOG(to_real(rb.f((e,)))))
+                yield 'null median is (N_A - N_B) / N', to_real(m) * z3.ToReal(_n) == _o['A'][3] - _o['B'][3]
+                yield 'observed statistic is z, quantile is the two-sided p', z3.BoolVal(
+                    r.fields.get('observed_statistic') is out['z_statistic'] and r.fields.get('quantile') is out['probability'])
+            yield 'name / status / names', z3.BoolVal(r.fields.get('name') == 'W-Test' and r.fields.get('status') == 'normal'
+                                                      and r.fields.get('sim_name') == ('fcA', 'fcB') and r.fields.get('obs_name') == 'cat')
+    WT.__name__ = 'WTest_%s' % scale
+    return WT
+
+
+for _s in (False, True):
+    _REG.add(paired_t_case(_s))
+    _REG.add(w_case(_s))
